@@ -359,6 +359,18 @@ fn conn_history(seed: u64, idx: usize, thorough: bool, out: &mut impl Write) {
         let comps = if k % 2 == 0 { vec![CVal::new(Ty::A, k as i64), CVal::new(Ty::Name, k as i64)] } else { vec![] };
         c.s.spawn(0, h, true, &comps, None);
     }
+    // one history in ten: a heavy world — a snapshot of 3 - 8 MiB, around the reliable channel's memory budget of 5 MiB
+    // (above it renet refuses the join; below it the snapshot takes dozens of frames)
+    if idx % 10 == 7 {
+        let k = rng.range(6, 17);
+        for j in 0..k {
+            let h = c.fresh();
+            let mut v = CVal::new(Ty::V, 9 + j as i64);
+            v.list = (0..512 * 1024).map(|i| ((i + j) % 251) as u64).collect();
+            c.s.spawn(0, h, true, &[v, CVal::new(Ty::A, j as i64)], None);
+        }
+        c.s.trace.push(json!({"ev":"heavy_world","entities":k,"bytes":k * 512 * 1024}));
+    }
     // frames before anything is started
     for _ in 0..rng.below(3) { c.s.step(0); c.s.step(1); }
     c.s.start_host();
@@ -377,10 +389,20 @@ fn conn_history(seed: u64, idx: usize, thorough: bool, out: &mut impl Write) {
     }
     let steps = if thorough { rng.range(30, 90) } else { rng.range(20, 50) };
     let mut started: Vec<bool> = vec![false; (nclients + 1) as usize];
-    for _ in 0..steps {
-        match rng.below(14) {
+    let heavy = idx % 10 == 7;
+    if heavy {
+        // the host alone settles its world first: a client that is already connected when the values are first detected gets
+        // them twice (live broadcast and snapshot), which doubles what the channel has to hold
+        for _ in 0..6 {
+            c.s.step(0);
+        }
+    }
+    for step_no in 0..steps {
+        // a heavy world is joined once, plainly: the point is the size of the snapshot
+        let op = if heavy { if step_no == 0 { 0 } else { 13 } } else { rng.below(14) };
+        match op {
             0 => {
-                let cl = rng.range(1, nclients as usize) as u32;
+                let cl = if heavy { 1 } else { rng.range(1, nclients as usize) as u32 };
                 if !started[cl as usize] {
                     c.s.connect(cl);
                     started[cl as usize] = true;
@@ -701,11 +723,56 @@ fn history(family: &str, seed: u64, idx: usize, thorough: bool, out: &mut impl W
             let d = c.drain(40);
             c.s.trace.push(json!({"ev":"drain","quiescent":d.0,"rounds":d.1}));
             let mut cur_parent: std::collections::BTreeMap<u32, u32> = Default::default();
+            // what every peer itself set last for a child, and who moved the child last
+            let mut set_by: std::collections::BTreeMap<(u32, u32), u32> = Default::default();
+            let mut last_mover: std::collections::BTreeMap<u32, u32> = Default::default();
             for _ in 0..rounds {
-                let p = c.any_peer();
+                let mut p = c.any_peer();
                 let live = c.live.clone();
-                let child = *c.rng.pick(&live);
-                let parent = *c.rng.pick(&live);
+                let mut child = *c.rng.pick(&live);
+                let mut parent = *c.rng.pick(&live);
+                // the three steps as one unit: p1 puts the child under a, another peer moves it under b, p1 puts it back under a
+                // (drained in between: nothing is concurrent)
+                if c.peers() >= 2 && c.rng.chance(1, 4) {
+                    let cands: Vec<u32> = live.iter().cloned().filter(|x| live.iter().filter(|y| *y < x).count() >= 2).collect();
+                    if !cands.is_empty() {
+                        let ch = *c.rng.pick(&cands);
+                        let below: Vec<u32> = live.iter().cloned().filter(|y| *y < ch).collect();
+                        let a = *c.rng.pick(&below);
+                        let b = *c.rng.pick(&below.iter().cloned().filter(|y| *y != a).collect::<Vec<_>>());
+                        let p1 = c.any_peer();
+                        let others: Vec<u32> = (0..c.peers()).filter(|q| *q != p1).collect();
+                        let p2 = *c.rng.pick(&others);
+                        c.s.trace.push(json!({"ev":"put_back_after_other_mover","peer":p1,"other":p2,"h":ch}));
+                        let mut ok = true;
+                        for (q, pa) in [(p1, a), (p2, b), (p1, a)] {
+                            c.s.set_parent(q, ch, pa);
+                            cur_parent.insert(ch, pa);
+                            set_by.insert((q, ch), pa);
+                            last_mover.insert(ch, q);
+                            if c.rng.chance(1, 2) {
+                                c.random_steps();
+                            }
+                            let d = c.drain(60);
+                            c.s.trace.push(json!({"ev":"drain","quiescent":d.0,"rounds":d.1}));
+                            ok &= d.0;
+                        }
+                        if !ok {
+                            break;
+                        }
+                        continue;
+                    }
+                }
+                // a peer puts a child back where it had put it itself before another peer moved it away
+                let back: Vec<(u32, u32, u32)> = set_by.iter().map(|((q, ch), pa)| (*q, *ch, *pa))
+                    .filter(|(q, ch, pa)| cur_parent.get(ch) != Some(pa) && last_mover.get(ch) != Some(q)).collect();
+                if !back.is_empty() && c.rng.chance(1, 3) {
+                    let (q, ch, pa) = *c.rng.pick(&back);
+                    p = q;
+                    child = ch;
+                    parent = pa;
+                    c.s.trace.push(json!({"ev":"put_back_after_other_mover","peer":p,"h":child}));
+                }
                 // no cycles: parent must not be a descendant of child — keep it simple: parent handle < child handle
                 if parent < child {
                     // a move away and back in consecutive frames of the mover (relayed at once when the mover is a client)
@@ -732,6 +799,8 @@ fn history(family: &str, seed: u64, idx: usize, thorough: bool, out: &mut impl W
                         }
                     }
                     cur_parent.insert(child, parent);
+                    set_by.insert((p, child), parent);
+                    last_mover.insert(child, p);
                     c.s.set_parent(p, child, parent);
                     // the same peer moves the same child again in the next frame (no other peer involved)
                     if c.rng.chance(1, 4) {
@@ -742,6 +811,7 @@ fn history(family: &str, seed: u64, idx: usize, thorough: bool, out: &mut impl W
                             c.s.trace.push(json!({"ev":"consecutive_reparent","peer":p,"h":child}));
                             c.s.set_parent(p, child, p2);
                             cur_parent.insert(child, p2);
+                            set_by.insert((p, child), p2);
                         }
                     }
                 }
